@@ -183,6 +183,15 @@ def distribute(s, df, sp, flt, **kw):
                 return "part %d holds %d sentences, expected %d" % (i, len(dec_terminals(text)), parts_exp[i])
     if cat != whole:
         return "the parts taken in order hold %r, the unsplit output %r" % (cat, whole)
+    # the same command once more in the same process: same parts
+    first = [stubs.get(nme) for nme in names]
+    try:
+        transform.run(_args("s2.out", fmt, spec, trans, params))
+    except Exception as e:      # noqa
+        return "second split run in the same process failed: %s: %s" % (type(e).__name__, e)
+    second = [stubs.get("s2.out.%d" % i) if ("s2.out.%d" % i) in stubs.MemFS.files else None for i in range(len(parts_exp))]
+    if second != first:
+        return "a second split run in the same process writes %r, the first wrote %r" % (second, first)
     return ""
 
 
